@@ -132,7 +132,9 @@ pub fn check_list(c: &ListCase) -> CheckResult {
 }
 pub const LIST_CLASSES: &[&str] = &["overlap_with_different_weights", "overlap", "contains_spaces", "empty_list", "six_plus_tokens"];
 
-pub const LITERALS_QUICK: &[Option<&str>] = &[None, Some("1"), Some("0"), Some("0.5"), Some("1.00"), Some("0.250000000000000000000000000000000000000000000000000000000000")];
+// the last two lie a hair above / below the midpoint of two neighbouring f32 values: a parser that
+// goes through f64 rounds them to the midpoint first and then to the wrong neighbour
+pub const LITERALS_QUICK: &[Option<&str>] = &[None, Some("1"), Some("0"), Some("0.5"), Some("1.00"), Some("0.250000000000000000000000000000000000000000000000000000000000"), Some("0.5000000298023224"), Some("0.50000008940696716")];
 pub const LITERALS_THOROUGH: &[Option<&str>] = &[
     None,
     Some("1"),
@@ -151,6 +153,8 @@ pub const LITERALS_THOROUGH: &[Option<&str>] = &[
     Some("0.100000001490116119384765625"),
     Some("0.250000000000000000000000000000000000000000000000000000000000"),
     Some("1.000000000000000000000000000000000000000000000000000000000000"),
+    Some("0.5000000298023224"),
+    Some("0.50000008940696716"),
 ];
 
 pub fn weight_literal() -> impl Strategy<Value = Option<String>> {
@@ -164,7 +168,30 @@ pub fn weight_literal() -> impl Strategy<Value = Option<String>> {
         1 => "0\\.[0-9]{13,70}".prop_map(Some),
         1 => "1\\.0{7,70}".prop_map(Some),
         1 => "1\\.0{1,6}".prop_map(Some),
+        1 => midpoint_literal(),
     ]
+}
+
+/// The exact decimal expansion of the midpoint of two neighbouring f32 values in [2^-8, 1), moved
+/// a hair up (one more digit) or down (last digit decremented, nines appended): the correctly
+/// rounded f32 is the upper resp. lower neighbour, whereas rounding to f64 first lands on the
+/// midpoint itself and the second rounding goes to the even neighbour - wrong in half the cases.
+pub fn midpoint_literal() -> impl Strategy<Value = Option<String>> {
+    (0x3b80_0000u32..0x3f7f_ffffu32, any::<bool>()).prop_map(|(bits, above)| {
+        let a = f32::from_bits(bits);
+        let b = f32::from_bits(bits + 1);
+        let m = (a as f64 + b as f64) / 2.0;
+        let mut s = format!("{:.45}", m);
+        if above {
+            s.push('1');
+        } else {
+            let t = s.trim_end_matches('0').to_string();
+            let (head, last) = t.split_at(t.len() - 1);
+            let d = last.as_bytes()[0] - b'0';
+            s = format!("{}{}9999", head, d - 1);
+        }
+        Some(s)
+    })
 }
 
 /// token over a small rank palette so that tokens of one list overlap often
@@ -251,7 +278,7 @@ pub fn list_strategy(max: usize) -> impl Strategy<Value = ListCase> {
 }
 
 pub fn run(ctx: &mut Ctx) {
-    ctx.rule = "(1) exhaustive: all 3,796 well-formed tokens (13 pockets, 13 XX+, 78 pocket spans, 312 rank pairs in either rank order, 156 XYs+/XYo+, 572 kicker spans, 2,652 ordered card pairs) x weight literals (quick 6, thorough 17, incl. 60-digit literals; the literal that is sensitive to double rounding through f64 is left to C06, whose statement demands bit-identical weights) - the token must parse and expand to exactly the model's combo set, each once, at the literal's value, also as a one-token range. (2) proptest token lists of 0-12 (thorough 0-40) tokens, plus long lists of up to 320 tokens and lists that first cover all 1326 combos (22+,X2s+,X2o+ for every high card, or all 169 rank pairs, shuffled) and then override parts of them, over a 3-6 rank palette (frequent overlaps), generated weight literals 0.d{1,12} / 1.0.. , optional spaces around commas and at the ends, the empty and all-space strings; the parsed range must equal the model map (sequential insert, later wins), weights bit-identical. Non-trivial: tokens all; lists with >= 1 combo covered by two tokens of different weight; distinct by text.".into();
+    ctx.rule = "(1) exhaustive: all 3,796 well-formed tokens (13 pockets, 13 XX+, 78 pocket spans, 312 rank pairs in either rank order, 156 XYs+/XYo+, 572 kicker spans, 2,652 ordered card pairs) x weight literals (quick 8, thorough 19, incl. 60-digit literals and two literals a hair off the midpoint of neighbouring f32 values, which a parser going through f64 rounds to the wrong neighbour) - the token must parse and expand to exactly the model's combo set, each once, at the literal's value, also as a one-token range. (2) proptest token lists of 0-12 (thorough 0-40) tokens, plus long lists of up to 320 tokens and lists that first cover all 1326 combos (22+,X2s+,X2o+ for every high card, or all 169 rank pairs, shuffled) and then override parts of them, over a 3-6 rank palette (frequent overlaps), generated weight literals 0.d{1,12} / 0.d{13,70} / 1.0.. / exact f32 midpoints moved a hair up or down (45-50 digits), optional spaces around commas and at the ends, the empty and all-space strings; the parsed range must equal the model map (sequential insert, later wins), weights bit-identical. Non-trivial: tokens all; lists with >= 1 combo covered by two tokens of different weight; distinct by text.".into();
     ctx.assumptions = vec![
         "the literal's value is std's str::parse::<f32>() of the literal".into(),
         "spaces only around commas and at the ends; weights only from literals whose value is in [0,1]".into(),
